@@ -19,7 +19,10 @@ class Default:
         self.subType = subType
         self.componentID = componentID
         self.dataLength = sectionLen - 8
-        self.data = self.stream.get_mem(self.dataLength)
+        # A section may consist of its header alone.
+        self.data = b''
+        if self.dataLength != 0:
+            self.data = self.stream.get_mem(self.dataLength)
 
     def toJSON(self) -> OrderedDict:
 
